@@ -615,6 +615,31 @@ def main():
         broken.extend(funcs.generate_all())
         import funcs_big
         broken.extend(funcs_big.generate_all())
+        # further targets kept outside funcs.py (its content is part of the cache key of every generated file): the hazmat
+        # round functions of the two fixsliced AES backends (cfg feature "hazmat"), property C17
+        import json as _json
+        HZ_T = {"Block": "[u8; 16]", "Block8": "[[u8; 16]; 8]"}
+        HZ_FN = ["cipher_round", "equiv_inv_cipher_round", "mix_columns", "inv_mix_columns", "cipher_round_par", "equiv_inv_cipher_round_par"]
+        extra = {}
+        for w_, path_, nb_ in (("64", funcs.FS64, 4), ("32", funcs.FS32, 2)):
+            extra[f"Aes_Fs{w_}hz.lean"] = [
+                funcs.T("aes", path_, f, f"fs{w_}_hazmat_{f}", cfg=("feature=hazmat",), types=dict(HZ_T, BatchBlocks=f"[[u8; 16]; {nb_}]"),
+                        packed=("block", "round_key", "blocks", "round_keys"), pack_out=16) for f in HZ_FN]
+        cpath = os.path.join(OUT, ".funcs_extra_cache.json")
+        try:
+            cache = _json.load(open(cpath))
+        except (OSError, ValueError):
+            cache = {}
+        for fname, ts in extra.items():
+            hsh = funcs._src_hash(["aes"])
+            ent = cache.get(fname)
+            if ent and ent.get("hash") == hsh and os.path.exists(os.path.join(OUT, fname)):
+                broken.extend(ent.get("broken", []))
+                continue
+            b = funcs.generate(OUT, targets=ts, fname=fname)
+            cache[fname] = {"hash": hsh, "broken": b}
+            broken.extend(b)
+        _json.dump(cache, open(cpath, "w"))
     except Exception as e:  # the function translator must never take the other extractions down with it
         broken.append(f"funcs: translator crashed: {type(e).__name__} {e}")
 
